@@ -41,8 +41,10 @@ RULE = ("layouts built from block-occupancy vectors over nr x nc grids of unit b
         "exactly the same folds: split() a 2nd (thorough: and 3rd) time on the SAME instance, a second fresh instance, "
         "sklearn.base.clone of the used instance (split twice; safe=False, i.e. a deep copy, while the splitters have no "
         "get_params), an instance built and used with another seed and then set_params(random_state=seed) (plain attribute "
-        "assignment while the splitters have no set_params), and X in other memory layouts (np.asfortranarray, transposed view of a 2 x n array, "
-        "strided column view of a wider array; block_split labels must be identical too) - thorough: all five variants on "
+        "assignment while the splitters have no set_params), ONE instance used first on other data sets (the same points in reversed row order, then the points "
+        "mirrored inside the bounding box: same size and bounding box, other order/positions; separately a shifted and "
+        "stretched copy: same size, other bounding box) and then on the case's data, and X in other memory layouts (np.asfortranarray, transposed view of a 2 x n array, "
+        "strided column view of a wider array; block_split labels must be identical too) - thorough: all six variants on "
         "every random/malformed case and two (rotating) on every exhaustive case; quick: one (rotating) per case. Float test/train sizes whose exact "
         "product with the number of blocks is within 1e-9 of an integer without being one are excluded (counted in "
         "EXTRA). A case is non-trivial when the cross-validator yields folds over >= 2 occupied blocks; distinct = "
@@ -152,7 +154,17 @@ def _split(cv, X):
         return ("other", type(exc).__name__)
 
 
-VARIANTS = ["clone", "set_params", "fortran", "transposed", "strided"]
+VARIANTS = ["clone", "set_params", "reuse", "fortran", "transposed", "strided"]
+
+
+def _other_datasets(X):
+    """data sets to use an instance on BEFORE the case's own X: the same points in reversed row order and
+    the points mirrored inside the bounding box (same size, same bounding box, other positions/order), and a
+    shifted and stretched copy (same size, different bounding box)"""
+    x, y = X[:, 0], X[:, 1]
+    mirrored = np.column_stack([(x.min() + x.max()) - x, (y.min() + y.max()) - y]) if X.shape[0] else X.copy()
+    return {"reordered": X[::-1].copy(), "mirrored": mirrored,
+            "other-bbox": np.column_stack([x * 1.5 + 3.0, y * 0.5 - 2.0])}
 
 
 def _layouts(x, y):
@@ -209,6 +221,18 @@ def _observe(vd, make, seed, x, y, X, bargs, labels, variants, ncalls=3):
                 cvo = ("other", type(exc).__name__)
         if _split(cvo, X) != A:
             failed.append("set_params-random_state")
+    if "reuse" in variants:
+        # ONE instance used on other data sets first, then on the case's data set
+        oth = _other_datasets(X)
+        cvr = _construct(make, seed)
+        _split(cvr, oth["reordered"])
+        _split(cvr, oth["mirrored"])
+        if _split(cvr, X) != A:
+            failed.append("reuse-after-same-bbox-same-size-data")
+        cvr = _construct(make, seed)
+        _split(cvr, oth["other-bbox"])
+        if _split(cvr, X) != A:
+            failed.append("reuse-after-other-bbox-data")
     lay = _layouts(x, y)
     for name in ("fortran", "transposed", "strided"):
         if name in variants:
@@ -226,11 +250,22 @@ def _observe(vd, make, seed, x, y, X, bargs, labels, variants, ncalls=3):
     return A, failed
 
 
+def _repro_src(x, y, ctor):
+    """python one-liner: three split() calls on one instance, then one instance used on the reordered and the
+    mirrored data set before the case's data set"""
+    return ("import verde, numpy as np; X = np.column_stack([%r, %r]); mk = lambda: %s; cv = mk(); "
+            "print('one instance, split() calls 1-3:', [[te.tolist() for _, te in cv.split(X)] for call in (1, 2, 3)]); "
+            "cv = mk(); M = np.column_stack([X[:, 0].min() + X[:, 0].max() - X[:, 0], X[:, 1].min() + X[:, 1].max() - X[:, 1]]); "
+            "[list(cv.split(D)) for D in (X[::-1].copy(), M)]; "
+            "print('same parameters, after use on reordered and mirrored data:', [te.tolist() for _, te in cv.split(X)])"
+            % (x, y, ctor))
+
+
 def _variants_for(spec):
     if spec.get("all_variants"):
         return VARIANTS
     k = spec.get("variant", 0)
-    return [VARIANTS[(k + 2 * i) % len(VARIANTS)] for i in range(spec.get("nvariants", 1))]
+    return [VARIANTS[(k + 3 * i) % len(VARIANTS)] for i in range(spec.get("nvariants", 1))]
 
 
 def _bargs_src(bargs):
@@ -275,10 +310,8 @@ def _do_kfold(spec):
            "shuffle": spec["seed"] is not None, "random_state": spec["seed"], "balance": spec["balance"],
            "shuffle_oracle": perm}
     out = list(obs) + [{"reproducible": repro_ok, "failed_reproducibility_checks": failed}]
-    repro = ("import verde, numpy as np; X = np.column_stack([%r, %r]); "
-             "cv = verde.BlockKFold(%s, n_splits=%d, shuffle=%r, random_state=%r, balance=%r); "
-             "print([[te.tolist() for _, te in cv.split(X)] for call in (1, 2, 3)])"
-             % (x, y, _bargs_src(bargs), spec["n_splits"], spec["seed"] is not None, spec["seed"], spec["balance"]))
+    repro = _repro_src(x, y, "verde.BlockKFold(%s, n_splits=%d, shuffle=%r, random_state=%r, balance=%r)"
+                       % (_bargs_src(bargs), spec["n_splits"], spec["seed"] is not None, spec["seed"], spec["balance"]))
     return (inp, out, term, repro, spec["kind"], obs[0] == "ok" and nb >= 2)
 
 
@@ -342,10 +375,8 @@ def _do_bss(spec):
            "test_size": ts, "train_size": tr, "random_state": spec["seed"], "balancing": spec["balancing"],
            "permutation_oracle": perms if len(perms) <= 12 else "%d permutations of range(%d)" % (len(perms), nb)}
     out = list(obs[:1]) + list(obs[2:]) + [{"reproducible": repro_ok, "failed_reproducibility_checks": failed}]
-    repro = ("import verde, numpy as np; X = np.column_stack([%r, %r]); "
-             "cv = verde.BlockShuffleSplit(%s, n_splits=%d, test_size=%r, train_size=%r, random_state=%r, balancing=%d); "
-             "print([[te.tolist() for _, te in cv.split(X)] for call in (1, 2, 3)])"
-             % (x, y, _bargs_src(bargs), spec["n_splits"], ts, tr, spec["seed"], spec["balancing"]))
+    repro = _repro_src(x, y, "verde.BlockShuffleSplit(%s, n_splits=%d, test_size=%r, train_size=%r, random_state=%r, balancing=%d)"
+                       % (_bargs_src(bargs), spec["n_splits"], ts, tr, spec["seed"], spec["balancing"]))
     return (inp, out, term, repro, spec["kind"], obs[0] == "ok" and nb >= 2)
 
 
